@@ -54,8 +54,7 @@ def main():
             out[cid] = {"exit": p.returncode, "violation_lines": len(viol), "first": first}
     finally:
         subprocess.run(["git", "-C", "/repo", "worktree", "remove", "--force", wt])
-        # evidence files were rewritten against the mutated tree: restore the committed ones
-        subprocess.run(["git", "-C", HERE, "checkout", "--", "evidence"], stderr=subprocess.DEVNULL)
+        pass  # evidence of scratch-worktree runs goes to a scratch directory (core.EVIDENCE)
     print(json.dumps(out))
     return 0
 
